@@ -54,7 +54,13 @@ func (c03) Generate(seed uint64, tier string, index int) any {
 		n := 1 + g.R.Intn(3)
 		for i := 0; i < n; i++ {
 			sz := 700*int64(2+g.R.Intn(30)) + int64(g.R.Intn(700))
-			sc.Files = append(sc.Files, C02File{Name: fmt.Sprintf("s%d", i), Basis: &fstree.Content{Class: "random", Seed: g.R.Uint64() >> 1, Size: sz}})
+			f := C02File{Name: fmt.Sprintf("s%d", i), Basis: &fstree.Content{Class: "random", Seed: g.R.Uint64() >> 1, Size: sz}}
+			if g.R.Intn(3) == 0 {
+				// destination absent: the receiver asks for the whole file with an
+				// all-zero checksum header, which a protocol-27 sender echoes
+				f.NoBasis = true
+			}
+			sc.Files = append(sc.Files, f)
 		}
 		sc.Sync.Tr = g.TransportFor(12, 200<<10)
 		return sc
@@ -375,7 +381,9 @@ func c03Script(t *testing.T, sc *C03Scenario, job *Job, res *Result) {
 			return
 		}
 		byName[f.Name] = f
-		os.WriteFile(filepath.Join(lay.Dst, f.Name), f.basis(), 0644)
+		if !f.NoBasis {
+			os.WriteFile(filepath.Join(lay.Dst, f.Name), f.basis(), 0644)
+		}
 		entries = append(entries, refproto.Entry{Name: f.Name, Mode: refproto.SIFREG | 0644, Mtime: 1400000000, Size: int64(len(f.basis())) + 7})
 	}
 	before, _ := fstree.Snapshot(lay.Dst)
@@ -400,9 +408,20 @@ func c03Script(t *testing.T, sc *C03Scenario, job *Job, res *Result) {
 				Answer: func(idx int, e *refproto.Entry, _ []byte, rq *refproto.Request, seed int32) (refproto.SumHead, []refproto.Tok, [16]byte) {
 					basis := byName[e.Name].basis()
 					h := rq.Head
+					if byName[e.Name].NoBasis {
+						basis = nil
+					}
 					// honest stream: blocks of the basis in order with a literal in the middle and at the end
 					var toks []refproto.Tok
 					var H []byte
+					if h.Count == 0 {
+						// whole file: three literal runs
+						for i := 0; i < 3; i++ {
+							lit := []byte(fmt.Sprintf("<<whole-file run %d/%d>>", i, rng.Intn(1000)))
+							toks = append(toks, refproto.Tok{Lit: lit})
+							H = append(H, lit...)
+						}
+					}
 					for b := int32(0); b < h.Count; b++ {
 						lo, hi := h.BlockRange(b)
 						toks = append(toks, refproto.Tok{Block: b})
@@ -419,8 +438,20 @@ func c03Script(t *testing.T, sc *C03Scenario, job *Job, res *Result) {
 					honest[e.Name] = H
 					// perturb
 					p := append([]refproto.Tok(nil), toks...)
-					kind := []string{"other-block", "swap-literals", "dup-literal", "drop-token", "truncate"}[rng.Intn(5)]
+					kind := []string{"other-block", "swap-literals", "dup-literal", "drop-token", "truncate", "flip-literal"}[rng.Intn(6)]
+					if h.Count == 0 && kind == "other-block" {
+						kind = "flip-literal"
+					}
 					switch kind {
+					case "flip-literal":
+						for i := range p {
+							if p[i].Lit != nil {
+								l := append([]byte(nil), p[i].Lit...)
+								l[rng.Intn(len(l))] ^= byte(1 << uint(rng.Intn(8)))
+								p[i] = refproto.Tok{Lit: l}
+								break
+							}
+						}
 					case "other-block":
 						if h.Count >= 2 {
 							i := rng.Intn(len(p))
